@@ -249,7 +249,7 @@ func reference(hdr []entry, body []mbInfo) (match bool, class string) {
 func main() {
 	logger.SetLogLevel("*:NONE")
 	r := vk.Start("C19")
-	r.Rule("universe of 4 miniblocks (A, B to another shard, C = A retyped, D three txs) and 21 header entries (per miniblock: exact, wrong type, wrong receiver, wrong sender, wrong tx count on the correct hash; plus an unknown hash); quick: every header list of <= 3 entries with at most one inexact entry (1054) x every body list of <= 3 miniblocks (85), thorough: all 9724 header lists x 85 bodies; each pair goes through the real ProcessBlock of a shard processor and of a meta processor. Non-trivial = non-empty header or body; shape = (processor, header length, body length, number of inexact entries, reference verdict/class, observed verdict).")
+	r.Rule("universe of 4 miniblocks (A, B to another shard, C = A retyped, D three txs) and 21 header entries (per miniblock: exact, wrong type, wrong receiver, wrong sender, wrong tx count on the correct hash; plus an unknown hash); quick: every header list of <= 3 entries with at most one inexact entry (1054) plus a seed-chosen sample of 400 lists with several inexact entries x every body list of <= 3 miniblocks (85), thorough: all 9724 header lists x 85 bodies; each pair goes through the real ProcessBlock of a shard processor and of a meta processor. Non-trivial = non-empty header or body; shape = (processor, header length, body length, number of inexact entries, reference verdict/class, observed verdict).")
 	r.Assume("processors are assembled from the repository's mock packages (transaction coordinator, accounts, trackers are stubs); the correlation check is the first body-dependent step of ProcessBlock",
 		"an error other than ErrHeaderBodyMismatch/ErrNilMiniBlock after the correlation step counts as 'passed the correlation check' (later steps such as the cross-shard miniblock verification may still reject a header whose entries name other shards)",
 		"miniblock hashes are collision free, so a body miniblock has exactly one admissible (sender, receiver, type, tx count)")
@@ -274,7 +274,7 @@ func main() {
 		u := universe(k.self)
 		ents := entries(u, k.self)
 		all := lists(len(ents), 3)
-		var hs [][]int
+		var hs, rest [][]int
 		for _, h := range all {
 			bad := 0
 			for _, i := range h {
@@ -283,9 +283,17 @@ func main() {
 				}
 			}
 			if r.Quick() && bad > 1 {
+				rest = append(rest, h)
 				continue
 			}
 			hs = append(hs, h)
+		}
+		// quick: plus a seed-dependent sample of the header lists with several inexact entries
+		if len(rest) > 0 {
+			srng := vk.NewRand(r.Seed*977 + uint64(k.self))
+			for _, i := range srng.Perm(len(rest))[:400] {
+				hs = append(hs, rest[i])
+			}
 		}
 		plans = append(plans, plan{k, u, ents, hs, lists(len(u), 3)})
 	}
